@@ -65,7 +65,7 @@ APOOLS = {'E7': E7, 'E4': E4, 'E3': E3, 'E2': E2, 'EL': EL}
 S9 = [3, -2.5, False, None, '3', 'abc', D(2000, 2, 29), 0, D(2019, 11, 20, 6, 0)]   # scalars met by arrays
 SL = [3, '3', False, 'abc', 0, None]                           # literal-able scalars met by literal arrays
 
-CONCAT = SCALARS + ['a b', 'None', 200000000]
+CONCAT = SCALARS + ['a b', 'None', 200000000, '2.0', '10.00', '1e3', '007', '+3', ' 3', '3 ', 'TRUE', '1E2']
 
 # ---------------------------------------------------------------------------- the conversion table
 # 'd' = the result is a date, 'n' = a number.  Transcribed cell by cell from the tests:
@@ -663,7 +663,7 @@ def text_of(v):
 
 class Concat(Sub):
     name = 'c06.concat'
-    rule = ('every ordered pair of 29 scalars (the scalar pool + "a b", "None", 200000000) under & x routes '
+    rule = ('every ordered pair of 38 scalars (the scalar pool + "a b", "None", 200000000 and numeric-looking texts "2.0", "10.00", "1e3", "007", "+3", " 3", "3 ", "TRUE", "1E2", which join verbatim) under & x routes '
             '{variable, cell, literal}: exact string for text / int / blank operands; for float / logical / date '
             'operands: text result, demanded side verbatim, blank & x = "" & x; non-trivial = both operands '
             'demanded and not both text')
@@ -722,4 +722,53 @@ class Concat(Sub):
         return None
 
 
-SUBS = [ScalarPairs(), ArrayScalar(), ArrayArray(), Mismatch(), Nested(), LiteralArrays(), Concat()]
+EARLY = [D(1900, 1, 1), D(1900, 1, 2), D(1900, 2, 28), D(1900, 1, 1, 12, 0)]
+EARLY_NUMS = [0, 1, 2, -1, 0.5, True, None, '0', '2']
+
+
+class EarlyDates(Sub):
+    name = 'c06.early_dates'
+    rule = ('dates before 1 March 1900 (whose serial C13 leaves to the implementation) against numbers under + - * / on '
+            'either side, as variables and as DATE() calls: the operation must agree with the implementation\'s OWN serial '
+            'of that date (DATEVALUE): a zero divisor - including a date whose serial is 0 - gives exactly #DIV/0!, and no '
+            'other combination may give #ERROR! or #DIV/0!; non-trivial = divisor is a date')
+    min_cases = 100
+    min_nontrivial = 20
+
+    def cases(self, tier, unit):
+        for di in range(len(EARLY)):
+            for ni in range(len(EARLY_NUMS)):
+                for op in ('+', '-', '*', '/'):
+                    for side in (0, 1):
+                        for route in ('var', 'call'):
+                            yield [di, ni, op, side, route]
+
+    def check(self, env, case):
+        di, ni, op, side, route = case
+        d = env.dec(EARLY[di])
+        n = EARLY_NUMS[ni]
+        if route == 'call' and (d.hour or d.minute):
+            return None
+        dtext = 'xd' if route == 'var' else 'DATE(%d,%d,%d)' % (d.year, d.month, d.day)
+        s = env.evo('DATEVALUE(%s)' % dtext, vars={'xd': d})
+        if s[0] != 'v' or isinstance(s[1], bool) or not isinstance(s[1], (int, float)):
+            return fail('DATEVALUE(%s) with xd = %s is not a number: %r' % (dtext, d, s))
+        sv = s[1]
+        nv = {None: 0, True: 1, '0': 0, '2': 2}.get(n, n) if not isinstance(n, float) else n
+        formula = ('%s%sxn' % (dtext, op)) if side == 0 else ('xn%s%s' % (op, dtext))
+        got = env.evo(formula, vars={'xd': d, 'xn': n})
+        divisor = nv if side == 0 else sv
+        if op == '/' and side == 1:
+            env.nt()
+        where = '%s with xd = %s (own serial %r), xn = %r' % (formula, d.isoformat(), sv, n)
+        if op == '/' and divisor == 0:
+            if got != ['e', '#DIV/0!']:
+                return fail('%s: the divisor is zero, expected #DIV/0!, got %r' % (where, got), ['e', '#DIV/0!'], got)
+            return None
+        if got[0] in ('x', 'bad') or got in (['e', '#ERROR!'], ['e', '#DIV/0!'], ['e', '#VALUE!'], ['e', '#NAME?']):
+            return fail('%s: both operands have numeric values and the divisor is not zero, got %r' % (where, got),
+                        'a number, a date or #NUM!', got)
+        return None
+
+
+SUBS = [ScalarPairs(), ArrayScalar(), ArrayArray(), Mismatch(), Nested(), LiteralArrays(), Concat(), EarlyDates()]
